@@ -35,9 +35,17 @@ TRUSTED_EXTRA = [
 
 
 def run(ctx):
+    from .. import poison_probe
+    if ctx.replay and (ctx.replay.get("case") or {}).get("kind") == "poison-probe":
+        res = core.Result()
+        res.rule = "replay: the unpicklable-component probe is re-run"
+        poison_probe.run_memory(res, core.use_repo())
+        return res
     if ctx.replay:
         return replay(ctx, "C02")
-    return memcache.explore(ctx, "C02", 12000 if ctx.thorough else 1000, "main")
+    res = memcache.explore(ctx, "C02", 12000 if ctx.thorough else 1000, "main")
+    poison_probe.run_memory(res, core.use_repo())
+    return res
 
 
 def replay(ctx, want):
